@@ -151,6 +151,7 @@ Inductive label :=
 | LClientReset             (* resets: what the receiver has not read yet is lost *)
 | LTick                    (* one unit of logical time passes *)
 | LShutdown                (* the server's own context is cancelled (process shutdown) *)
+| LPeerSend                (* another member of the session broadcasts: one more message in this connection's sendChan *)
 (* receiver goroutine *)
 | LRecvPass | LRecvExit | LRecvRead | LRecvErr | LRecvDispatch | LRecvDisc
 (* the session's frame worker, the discarding goroutine *)
@@ -205,6 +206,8 @@ Definition step (p : params) (l : label) (s : state) : option state :=
   | LClientReset => if client_gone s then None else Some (set_net [] (set_cli CGone s))
   | LTick => Some (set_idle (S (idle s)) s)
   | LShutdown => if cancelled s then None else Some (set_cancelled true s)
+  | LPeerSend =>       (* Session.Broadcast -> participant.Responder.SendMsg -> h.sendChan <- msg (the peer blocks when full) *)
+      if in_session s && (sendq s <? cap_send p) then Some (set_sendq (S (sendq s)) s) else None
 
   (* ---- receiver: for { select { case <-ctx.Done(): return; default: msg, err := receiver(); ... Dispatch ... } } *)
   | LRecvPass =>
@@ -390,7 +393,7 @@ Fixpoint run (p : params) (ls : list label) (s : state) : option state :=
 
 Definition all_labels : list label :=
   [ LClientSend KValid; LClientSend KJoin; LClientSend KQuiet; LClientSend KFail; LClientSend KPanic; LClientSend KBad; LClientSend KDeferred;
-    LClientStall; LClientResume; LClientClose; LClientReset; LTick; LShutdown;
+    LClientStall; LClientResume; LClientClose; LClientReset; LTick; LShutdown; LPeerSend;
     LRecvPass; LRecvExit; LRecvRead; LRecvErr; LRecvDispatch; LRecvDisc; LFrame; LDiscard;
     LMainMsg; LMainSync; LMainIdle; LMainCtx; LMainDisc; LMainUnblockDisc; LMainSendDone; LMainLoop;
     LMainHDClose; LMainHDLeave; LMainCancel; LMainWaitDone; LHttpRecover;
@@ -399,7 +402,7 @@ Definition all_labels : list label :=
 (* transitions of the server's own goroutines *)
 Definition internal (l : label) : bool :=
   match l with
-  | LClientSend _ | LClientStall | LClientResume | LClientClose | LClientReset | LTick | LShutdown => false
+  | LClientSend _ | LClientStall | LClientResume | LClientClose | LClientReset | LTick | LShutdown | LPeerSend => false
   | _ => true
   end.
 
